@@ -1,9 +1,11 @@
 import LzmaVerif.Model.SyncOps
 /-
-Protocol model of the multi-threaded readers (`src/lzma2_reader_mt.rs`, `src/lzip/reader_mt.rs`;
-the writers have the same shape with "compress" for "decompress"): one coordinator thread inside the
-caller's `read`, up to `maxWorkers` worker threads, the shared work queue, the mpsc result channel,
-the shared error store + shutdown flag.
+Protocol model of the multi-threaded readers (`src/lzma2_reader_mt.rs`, `src/lzip/reader_mt.rs`): one
+coordinator thread inside the caller's `read`, up to `maxWorkers` worker threads, the shared work queue,
+the mpsc result channel, the shared error store + shutdown flag.  The WORKER half, the queue, the channel
+and the error store have the same shape in the two MT writers ("compress" for "decompress"); the writers'
+COORDINATOR does not follow `coordStep` (found by the trace validation, see `Model/MTTraceW.lean`).
+Real executions of the readers are replayed through this LTS on every check (`Model/MTTrace.lean`).
 
 Abstractions (stated in DESIGN.md): a unit's payload is identified with its sequence number; what a
 worker computes from unit `i` is `cfg.units[i]` (ok / fail / panic); queue operations are atomic
@@ -21,6 +23,11 @@ deriving DecidableEq, Repr
 structure Cfg where
   units : List Outcome     -- unit `i` exists iff `i < units.length`; its processing outcome
   srcOk : Bool             -- after the last unit: clean end of input (true) or source error (false)
+  endFused : Bool := false -- the end / error of the source is met in the SAME source call that pushed the
+                           -- last unit (`LZMA2ReaderMT::read_and_dispatch_chunk`: the end marker closes the
+                           -- last unit and returns `Ok(false)`; a truncation inside the chunk that opened a
+                           -- new unit), so the coordinator goes from the spawn check straight to the end
+                           -- handling; `false`: it is met by the next source call (`LZIPReaderMT`)
   maxWorkers : Nat         -- already clamped to [1, 256] by `new`
   initialWorkers : Nat     -- workers spawned by `new` (1, or 0 for LZIPReaderMT)
 deriving Repr
@@ -162,9 +169,12 @@ def coordStep (s : Sys) : Option Sys :=
     some { s with queue := s.queue ++ [seq], ws := wakeOne s.ws, pc := .spawnChk }
   | .spawnChk =>
     let spawned := s.ws.length
+    -- after the push of the last unit a fused source call goes on to its end handling (`.source` with
+    -- `nextDispatch = units.length`) without passing the loop top
+    let next : CPc := if s.cfg.endFused ∧ s.nextDispatch + 1 = s.cfg.units.length then .source else .top
     if s.queue.length > 0 ∧ s.active = spawned ∧ spawned < s.cfg.maxWorkers then
-      some { s with ws := s.ws ++ [.chkShutdown], nextDispatch := s.nextDispatch + 1, pc := .top }
-    else some { s with nextDispatch := s.nextDispatch + 1, pc := .top }
+      some { s with ws := s.ws ++ [.chkShutdown], nextDispatch := s.nextDispatch + 1, pc := next }
+    else some { s with nextDispatch := s.nextDispatch + 1, pc := next }
   | .recvReading =>
     match s.chan with
     | m :: rest => some (onMsg s m rest)
